@@ -1,6 +1,8 @@
 import Svgbob.Proofs.Guard
 import Svgbob.Proofs.MoveAll2
 import Svgbob.Proofs.CircleFacts
+import Svgbob.Model.Doc
+import Mathlib.Tactic.Ring
 /-!
 # Everything built from the cells of a span lies inside the canvas
 
@@ -908,5 +910,78 @@ theorem span_shapes_inCanvas (cat : Catalogue) (mx my : Int) (hmx : 0 ≤ mx) (h
       f.frag.InRange 0 ((mx + 2) * 1000) 0 ((my + 2) * 2000)) := by
   have hrest : SpanIn mx my rest := hs.subset (endorseArcsAndCircles_rest_subset cat s acc rest h)
   exact endorseRects_inCanvas _ _ (by omega) (by omega) _ (contactsOf_inCanvas len mx my rest hrest)
+
+/-! ## scaling: what is inside the unit canvas is inside the scaled canvas -/
+
+theorem mul_le_mul_nonneg (a b k : Int) (h : a ≤ b) (hk : 0 ≤ k) : a * k ≤ b * k :=
+  Int.mul_le_mul_of_nonneg_right h hk
+
+/-- **the scaled fragment lies inside the scaled canvas**: control points inside
+`[0, W] × [0, H]` at unit scale are inside `[0, W·k] × [0, H·k]` after `Fragment::scale` by `k ≥ 0`
+(a cell text becomes a text anchored inside its first cell) -/
+theorem scale_inRange (W H k : Int) (hk : 0 ≤ k) (f : Frag) (h : f.InRange 0 W 0 H) :
+    (f.scale k).InRange 0 (W * k) 0 (H * k) := by
+  have key : ∀ p : Pt, p.InRange 0 W 0 H → (p.scale k).InRange 0 (W * k) 0 (H * k) := by
+    intro p hp
+    simp only [Pt.InRange, Pt.scale] at hp ⊢
+    refine ⟨Int.mul_nonneg hp.1 hk, mul_le_mul_nonneg _ _ k hp.2.1 hk,
+      Int.mul_nonneg hp.2.2.1 hk, mul_le_mul_nonneg _ _ k hp.2.2.2 hk⟩
+  cases f with
+  | line s e b =>
+    intro p hp
+    simp only [Frag.scale, Frag.ctrl, Frag.points, List.mem_cons, List.mem_nil_iff, or_false] at hp
+    rcases hp with rfl | rfl
+    · exact key _ (h s (by simp [Frag.ctrl, Frag.points]))
+    · exact key _ (h e (by simp [Frag.ctrl, Frag.points]))
+  | markerLine s e b sm em =>
+    intro p hp
+    simp only [Frag.scale, Frag.ctrl, Frag.points, List.mem_cons, List.mem_nil_iff, or_false] at hp
+    rcases hp with rfl | rfl
+    · exact key _ (h s (by simp [Frag.ctrl, Frag.points]))
+    · exact key _ (h e (by simp [Frag.ctrl, Frag.points]))
+  | arc s e r m sw =>
+    intro p hp
+    simp only [Frag.scale, Frag.ctrl, Frag.points, List.mem_cons, List.mem_nil_iff, or_false] at hp
+    rcases hp with rfl | rfl
+    · exact key _ (h s (by simp [Frag.ctrl, Frag.points]))
+    · exact key _ (h e (by simp [Frag.ctrl, Frag.points]))
+  | rect s e fl r b =>
+    intro p hp
+    simp only [Frag.scale, Frag.ctrl, Frag.points, List.mem_cons, List.mem_nil_iff, or_false] at hp
+    rcases hp with rfl | rfl
+    · exact key _ (h s (by simp [Frag.ctrl, Frag.points]))
+    · exact key _ (h e (by simp [Frag.ctrl, Frag.points]))
+  | text st c =>
+    intro p hp
+    simp only [Frag.scale, Frag.ctrl, Frag.points, List.mem_cons, List.mem_nil_iff, or_false] at hp
+    subst hp
+    exact key _ (h st (by simp [Frag.ctrl, Frag.points]))
+  | polygon pts fl t =>
+    intro p hp
+    simp only [Frag.scale, Frag.ctrl, Frag.points, List.mem_map] at hp
+    obtain ⟨q, hq, rfl⟩ := hp
+    exact key _ (h q (by simpa [Frag.ctrl, Frag.points] using hq))
+  | circle c r fl =>
+    intro p hp
+    simp only [Frag.scale, Frag.ctrl, Frag.points, List.mem_cons, List.mem_nil_iff, or_false] at hp
+    have h1 := key _ (h ⟨c.x - r, c.y⟩ (by simp [Frag.ctrl, Frag.points]))
+    have h2 := key _ (h ⟨c.x + r, c.y⟩ (by simp [Frag.ctrl, Frag.points]))
+    have h3 := key _ (h ⟨c.x, c.y - r⟩ (by simp [Frag.ctrl, Frag.points]))
+    have h4 := key _ (h ⟨c.x, c.y + r⟩ (by simp [Frag.ctrl, Frag.points]))
+    simp only [Pt.scale, Pt.InRange] at h1 h2 h3 h4 ⊢
+    have e1 : (c.x - r) * k = c.x * k - r * k := by ring
+    have e2 : (c.x + r) * k = c.x * k + r * k := by ring
+    have e3 : (c.y - r) * k = c.y * k - r * k := by ring
+    have e4 : (c.y + r) * k = c.y * k + r * k := by ring
+    rcases hp with rfl | rfl | rfl | rfl <;> simp only [Pt.scale] <;> omega
+  | cellText st c =>
+    intro p hp
+    simp only [Frag.scale, Frag.ctrl, Frag.points, List.mem_cons, List.mem_nil_iff, or_false] at hp
+    subst hp
+    apply key
+    have h1 := h st.origin (by simp [Frag.ctrl])
+    have h2 := h ⟨(st.x + 1) * 1000, (st.y + 1) * 2000⟩ (by simp [Frag.ctrl])
+    simp only [Pt.InRange, cellTextAnchor, Pt.add, Cell.origin] at h1 h2 ⊢
+    omega
 
 end Svgbob
